@@ -31,6 +31,79 @@ type Keeper struct {
 	key storetypes.StoreKey
 	t   *tracker
 	m   map[uint64]bool
+	dec *decoded // memo of a pure function, read only against its witness (control: not a finding)
+	byI *byID    // remembers by id alone: a hit hands out whatever some earlier branch of state stored
+	mix *mixed   // compares the witness, but is filled with a value that does not come from the witness
+}
+
+// --- memos held by a module object (controls for the content-validated memo exception, props/memo.go) ---
+
+type decoded struct {
+	w string
+	v int
+	n bool
+}
+
+func (d *decoded) get(w string) (int, bool) {
+	if !d.n || d.w != w {
+		return 0, false
+	}
+	return d.v, true
+}
+
+func (d *decoded) set(w string, v int) { d.w, d.v, d.n = w, v, true }
+
+func parse(s string) int { return len(s) }
+
+// ValidatedMemo remembers parse(w) and reads it back only for the same w.
+func (k Keeper) ValidatedMemo(w string) int {
+	if v, ok := k.dec.get(w); ok {
+		return v
+	}
+	v := parse(w)
+	k.dec.set(w, v)
+	return v
+}
+
+type byID struct {
+	m map[uint64]int
+}
+
+func (b *byID) get(id uint64) (int, bool) { v, ok := b.m[id]; return v, ok }
+func (b *byID) set(id uint64, v int)      { b.m[id] = v }
+
+// UnvalidatedMemo hands out what was remembered for the id, whatever it was computed from.
+func (k Keeper) UnvalidatedMemo(id uint64, w string) int {
+	if v, ok := k.byI.get(id); ok {
+		return v
+	}
+	v := parse(w)
+	k.byI.set(id, v)
+	return v
+}
+
+type mixed struct {
+	w string
+	v int
+}
+
+func (m *mixed) get(w string) (int, bool) {
+	if m.w != w {
+		return 0, false
+	}
+	return m.v, true
+}
+
+func (m *mixed) set(w string, v int) { m.w, m.v = w, v }
+
+// MixedMemo pairs the witness with a value that depends on something else as well.
+func (k Keeper) MixedMemo(w string, height int) int {
+	if v, ok := k.mix.get(w); ok {
+		return v
+	}
+	v := parse(w) + height
+	k.mix.set(w, v)
+	return v
 }
 
 func (t *tracker) set() { t.pending = true }
